@@ -19,7 +19,13 @@ def main():
         subprocess.call(['git', '-C', '/repo', 'worktree', 'remove', '--force', wt], stdout=subprocess.DEVNULL, stderr=subprocess.DEVNULL)
         subprocess.check_call(['git', '-C', '/repo', 'worktree', 'add', '--detach', wt], stdout=subprocess.DEVNULL, stderr=subprocess.DEVNULL)
         try:
-            subprocess.check_call(['git', '-C', wt, 'apply', os.path.join(d, 'patch.diff')])
+            # patch.diff is the change as it was made, against the pinned commit; where a later fix: commit
+            # in /repo touches the same lines, patch.rebased.diff is the same change ported onto the fixed tree
+            pf = os.path.join(d, 'patch.rebased.diff')
+            if not os.path.exists(pf):
+                pf = os.path.join(d, 'patch.diff')
+            if subprocess.call(['git', '-C', wt, 'apply', pf]) != 0:
+                subprocess.check_call(['git', '-C', wt, 'apply', '--3way', pf])
             env = dict(os.environ, VERIF_REPO=wt)
             env.pop('VERIF_REEXEC', None)
             t0 = time.time()
